@@ -416,6 +416,7 @@ fn parse_chunk_type(chunk_type: u16) -> Result<ChunkType> {
 }
 
 const CHUNK_HEADER_SIZE: usize = 6;
+const MAX_CHUNK_READ_STEP: usize = 1 << 20;
 const FRAME_HEADER_SIZE: i64 = 16;
 
 struct Chunk {
@@ -432,8 +433,16 @@ impl Chunk {
         check_chunk_bytes(chunk_size, *bytes_available)?;
 
         let chunk_data_bytes = chunk_size as usize - CHUNK_HEADER_SIZE;
-        let mut data = vec![0_u8; chunk_data_bytes];
+        // Read large chunks in steps, so that a declared chunk size only
+        // costs memory once the bytes are actually there.
+        let mut data = vec![0_u8; chunk_data_bytes.min(MAX_CHUNK_READ_STEP)];
         reader.read_exact(&mut data)?;
+        while data.len() < chunk_data_bytes {
+            let start = data.len();
+            let step = (chunk_data_bytes - start).min(MAX_CHUNK_READ_STEP);
+            data.resize(start + step, 0);
+            reader.read_exact(&mut data[start..])?;
+        }
         *bytes_available -= chunk_size as i64;
         Ok(Chunk { chunk_type, data })
     }
